@@ -61,6 +61,22 @@ def gen_hostile_case(rng, docopts):
     for m in case['modules']:
         if rng.random() < 0.5:
             m['files'], m['fm_ok'] = hostile_tree(rng, m['type'])
+    if case['modules'] and rng.random() < 0.2:
+        # two DIFFERENT ids that a sanitiser ([^A-Za-z0-9_-] -> '_') maps to one name: each is validated on its own
+        m = rng.choice(case['modules'])
+        pre, _, nm = m['id'].partition(':')
+        if nm and re.fullmatch(r'[A-Za-z0-9_-]+', nm):
+            a, b = rng.sample(['.', '_', ' ', '+', '@'], 2)
+            cut = rng.randrange(1, len(nm) + 1)
+            oldid = m['id']
+            m['id'] = pre + ':' + nm[:cut] + a + 'tw'
+            twin = dict(m); twin['id'] = pre + ':' + nm[:cut] + b + 'tw'
+            twin['files'], twin['fm_ok'] = hostile_tree(rng, m['type'])
+            for pr in case.get('profiles', {}).values():
+                for k in ('include_modules', 'exclude_modules'):
+                    if oldid in pr.get(k, []):
+                        pr[k] = [m['id'] if x == oldid else x for x in pr[k]] + [twin['id']]
+            case['modules'].append(twin)
     if 'codex' in case['targets'] and rng.random() < 0.5:
         case['targets']['codex']['options']['codex_home'] = rng.choice([
             'relch', './relch', 'rel/../ch', '../project/up', SB + '/home/x/../ch', '~/../home/ch2', SB + '/home/a/b/../../ch3',
@@ -227,6 +243,10 @@ def corpus_cases():
         ('F1b skill file ..\\..\\..\\esc.txt', base([mod('skill:ok', 'skill', sk + [('..\\..\\..\\esc.txt', b'E')])]), 'reject'),
         ('F1b skill file \\abs', base([mod('skill:ok', 'skill', sk + [('\\' + (SB + '/canary/abs.txt').lstrip('/').replace('/', '\\'), b'E')])]), 'reject'),
         ('F1b prompt ..\\x.md', base([mod('prompt:p', 'prompt', [('..\\x.md', b'hi\n')])]), 'reject'),
+        ('ids equal after sanitising: skill:my_tool is checked although skill:my.tool passed',
+         base([mod('skill:my.tool', 'skill', sk), mod('skill:my_tool', 'skill', sk + [('..\\..\\..\\escaped\\note.md', b'E')])]), 'reject'),
+        ('ids equal after sanitising: prompt:a b / prompt:a_b',
+         base([mod('prompt:a b', 'prompt', [('a.md', b'hi\n')]), mod('prompt:a_b', 'prompt', [('..\\x.md', b'hi\n')])]), 'reject'),
         ('F13 codex_home=<project>//', base([mod('instructions:i', 'instructions', [('AGENTS.md', b'hi\n')])],
                                             targets={'codex': {'scope': 'both', 'options': {'codex_home': SB + '/project//'}}}), 'ok'),
     ]
